@@ -561,6 +561,41 @@ def check_columns(case, rec=None):
                                   "updateGeometry by %.3g (edited %s)" % (fast, d, names), what="updateGV"))
         else:
             fails.append(exc_failure("columnfile.updateGV(fast=%s)" % fast, e))
+    # the transformer object (the route of the gui, of grid_index_parallel and of the fitting scripts): parameters
+    # set, peaks attached, compute_tth_eta then computegv must give the columns of a fresh columnfile
+    if not fails:
+        from ImageD11 import transformer
+        import io, contextlib
+
+        def troute():
+            tr = transformer.transformer()
+            tr.parameterobj.set_parameters(dict(p2))
+            tr.setfiltered(mk(p2))
+            with contextlib.redirect_stdout(io.StringIO()):
+                tr.compute_tth_eta()
+                tr.computegv()
+            return tr
+        ok, tr = guard(troute)
+        if not ok:
+            fails.append(exc_failure("transformer.compute_tth_eta/computegv", tr))
+        else:
+            gt = np.array([tr.colfile.gx, tr.colfile.gy, tr.colfile.gz], float)
+            e2 = np.abs(np.sqrt((gt * gt).sum(axis=0)) -
+                        2 * np.sin(np.radians(np.asarray(tr.colfile.tth, float)) / 2) / p2["wavelength"]).max()
+            if not e2 <= 1e-10 / p2["wavelength"]:
+                fails.append(fail("columns", "transformer.compute_tth_eta + computegv: |g| differs from 2 sin(theta)/"
+                                  "lambda by %.3g" % e2, what="bragg"))
+            # g = Omega.Chi.Wedge.k of the object's own two-theta / eta columns (harness formulas); only the angle to
+            # g step is judged here: how this object arrives at two-theta and eta for a displaced grain is not part
+            # of the statement
+            from vf import oracles as O
+            kk = O.geo_k(np.asarray(tr.colfile.tth, float), np.asarray(tr.colfile.eta, float), p2["wavelength"])
+            gref = O.geo_g_from_k(kk, np.asarray(om, float) * p2["omegasign"], p2)
+            d = np.abs(gt - np.asarray(gref).reshape(gt.shape)).max()
+            if not d <= 1e-10 / p2["wavelength"]:
+                fails.append(fail("columns", "transformer.computegv: gx, gy, gz differ from Omega.Chi.Wedge.k of its own "
+                                  "two-theta, eta and omega by %.3g (wedge %.3f chi %.3f omegasign %g)"
+                                  % (d, p2["wedge"], p2["chi"], p2["omegasign"]), what="transformer"))
     if rec is not None:
         rec.case(case, len(names) >= 2, ["columns"] + ["edit:" + k for k in names])
     return fails
